@@ -1,6 +1,6 @@
 CONSTANT Dev = {}
 CONSTANT Budget = 4
-CONSTANT Inits = {0, 1, 2, 3}
+CONSTANT Inits = {3}
 CONSTANT MaxIx = 2
 INIT Init
 NEXT Next
@@ -8,6 +8,9 @@ CHECK_DEADLOCK FALSE
 INVARIANT ITexRefs
 INVARIANT IMatRefs
 INVARIANT IIdxRefs
+INVARIANT IDoodadRefs
+INVARIANT IAttrsParallel
+INVARIANT IPortalRefs
 INVARIANT ISetRanges
 INVARIANT IHeaderCounts
 INVARIANT IGroupsParallel
